@@ -139,6 +139,12 @@ func (t *template) layout(ctx context.Context, w io.Writer) error {
 			// Parse the template bytes to get DOM nodes
 			templateNodes, err := parser.ParseTemplateBytes(tpl.templateBytes)
 			if err == nil {
+				// Every v-once element of the slot content needs an id of its
+				// own, or all of them count as one element in the layouts.
+				idCtx := VueContext{}
+				for _, node := range templateNodes {
+					assignSeenAttrs(&idCtx, node)
+				}
 				inheritedSlotScope = extractSlotsFromDOM(templateNodes)
 			}
 		}
